@@ -74,6 +74,22 @@ def helper_pair(name):
     }[name]
 
 
+def grouped(df, by):
+    """`df.group_by(*by)`; on objects with a history (harness/warm.py) the grouped receiver is also used
+    through methods documented as non-modifying before the grouped operation runs: they must not
+    disturb the grouping that `group_by` has set."""
+    from harness import warm
+    g = df.group_by(*by)
+    if warm.ENABLED:
+        warm._quiet(df.count, "_rid_")
+        warm._quiet(df.count)
+        warm._quiet(df.unique, "_rid_")
+        warm._quiet(lambda: df.sort(_rid_=-1))
+        warm._quiet(df.head, 1)
+        warm._quiet(df.to_string)
+    return g
+
+
 def impl(case):
     import dataiter as di
     from unittest.mock import patch
@@ -84,7 +100,7 @@ def impl(case):
     try:
         with patch("dataiter.USE_NUMBA", False):
             if op == "aggregate":
-                stat = df.group_by(*by).aggregate(ids=lambda x: ",".join(str(int(i)) for i in x._rid_), n=di.count(), first=di.first("_rid_"))
+                stat = grouped(df, by).aggregate(ids=lambda x: ",".join(str(int(i)) for i in x._rid_), n=di.count(), first=di.first("_rid_"))
                 res["groups"] = [[int(t) for t in s.split(",")] if s else [] for s in stat.ids.tolist()] if stat.nrow else []
                 res["n"] = [int(x) for x in stat.n]
                 res["first"] = [int(x) for x in stat.first]
@@ -93,7 +109,7 @@ def impl(case):
             elif op == "split":
                 res["groups"] = [[int(i) for i in g] for g in df.split(*by)]
             elif op == "modify":
-                out = df.group_by(*by).modify(own=lambda x: x._rid_ * 1, size=lambda x: x.nrow, lead=lambda x: int(x._rid_[0]) if x.nrow else -1)
+                out = grouped(df, by).modify(own=lambda x: x._rid_ * 1, size=lambda x: x.nrow, lead=lambda x: int(x._rid_[0]) if x.nrow else -1)
                 rids, problem = framegen.rows_integrity(spec, out.unselect("own", "size", "lead"))
                 res.update({"rids": rids, "problem": problem, "own": [int(x) for x in out.own],
                             "size": [int(x) for x in out["size"]], "lead": [int(x) for x in out.lead]})
@@ -103,7 +119,7 @@ def impl(case):
                 res["keys_first"] = {nm: vecgen.canon_array(stat[nm]) for nm in by}
             elif op == "shorthand":
                 short, lam = helper_pair(case["helper"])
-                a = df.group_by(*by).aggregate(y=short)
+                a = grouped(df, by).aggregate(y=short)
                 b = df.group_by(*by).aggregate(y=lam)
                 res["short"] = vecgen.canon_array(a.y)
                 res["lambda"] = vecgen.canon_array(b.y)
